@@ -66,7 +66,7 @@ def specs(tier):
 def states(tier, seed):
     fam = seed % 3
     st, inadm = [], 0
-    hb = [0.1, 0.25, 1.0, 5.0] if tier == "quick" else [0.05, 0.1, 0.25, 1.0, 5.0, 20.0]
+    hb = [0.005, 0.1, 0.25, 1.0, 5.0] if tier == "quick" else [0.005, 0.02, 0.05, 0.1, 0.25, 1.0, 5.0, 20.0]  # in spans; the smallest: extreme ground effect (centimetres)
     for ss, alpha, r in itertools.product(specs(tier), [0.0, 5.0, 12.0, -4.0], hb):
         s = dict(part="image", surfs=ss, alpha=alpha, h=r * SPAN, fam=fam)
         if min(above(mesh_of(sp, fam), alpha, s["h"]) for sp in ss) <= 1e-3:
